@@ -15,7 +15,7 @@ Init == st = InitState /\ cmd = NoCmd
 CanPush == Len(st.pushed) < MaxPush
 Next ==
   \/ \E t \in Id : /\ FutCanStep(st, t) /\ st' = RunFut(st, t) /\ cmd' = [c |-> "poll", t |-> t]
-  \/ \E t \in Id : /\ FutLive(st, t) /\ st.drops < MaxDrops /\ (DropHolding \/ st.held[t].id = 0)
+  \/ \E t \in Id : /\ FutDroppable(st, t) /\ st.drops < MaxDrops /\ (DropHolding \/ st.held[t].id = 0)
                    /\ st' = DropFut(st, t) /\ cmd' = [c |-> "drop", t |-> t]
   \/ /\ CallerCanStep(st) /\ st' = RunCaller(st) /\ cmd' = [c |-> "pollc"]
   \/ \E good \in BOOLEAN : /\ CanStartRpc(st) /\ (good \/ BadRpc)
